@@ -286,7 +286,6 @@ def ob_graph2(e01: bool, e10: bool, a0: bool, a1: bool, c0: bool, c1: bool, g0: 
     """
     pre: 0 <= g0 <= GQ and 0 <= g1 <= GQ and 0 <= rb <= 1 and 0 <= sa <= 2 and 0 <= sb <= SQ
     pre: (a0 or g0 == 0) and (a1 or g1 == 0) and (TWO_RB1 or not (two and rb == 1))
-    pre: not overlap_on_shared2(e01, e10, a0, a1, g0, g1, rb, sa, sb, two)
     post: _
     """
     r = 1 if rb == 1 else 0
